@@ -839,7 +839,10 @@ func (s *State) extendFunctionEnv(
 		// By definition function parameters are local copies, deref argument values:
 		pval := object.Value(args[paramIdx])
 		needVariable := true
-		if !s.NoReg && pval.Type() == object.INTEGER && env.HasRegisters() && !object.Constant(param.Value().Literal()) {
+		// A parameter named like the function itself is not read from the store: Get answers the function
+		// for that name. Keep it a plain variable, so that registers do not change what the name means.
+		ownName := fn.Name != nil && fn.Name.Literal() == param.Value().Literal()
+		if !s.NoReg && pval.Type() == object.INTEGER && env.HasRegisters() && !object.Constant(param.Value().Literal()) && !ownName {
 			// We will release all these registers just by returning/dropping the env.
 			reg, nbody, ok := setupRegister(env, param.Value().Literal(), pval.(object.Integer).Value, newBody)
 			if ok {
